@@ -27,7 +27,8 @@ fn ws_bytes() -> Vec<u8> {
 		2 => rt::draw_range("ws_n2", 100, 126),
 		_ => 127,
 	};
-	(0..n).map(|_| *rt::pick("ws_ch", &[b' ', b'\t', b'\n', b'\r'])).collect()
+	let with_ff = rt::chance("formfeed", 1, 12);
+	(0..n).map(|_| if with_ff && rt::chance("ff_here", 1, 3) { 0x0c } else { *rt::pick("ws_ch", &[b' ', b'\t', b'\n', b'\r']) }).collect()
 }
 
 pub fn gen_id(pool: &mut Vec<String>, ctr: &mut u64) -> String {
@@ -75,7 +76,7 @@ fn gen_params(nonce: u64) -> Option<String> {
 pub fn gen_message(pool: &mut Vec<String>, ctr: &mut u64, nonce: u64, for_batch: bool) -> Vec<u8> {
 	let method = |allow_unknown: bool| -> String {
 		let ms: &[&str] = if allow_unknown {
-			&["echo", "echo", "add", "aecho", "aecho", "becho", "bpanic", "fail", "len", "nope", "ec\\u0068o", "e\\\"q", ""]
+			&["echo", "echo", "add", "seqadd", "seqadd", "aecho", "aecho", "becho", "bpanic", "fail", "len", "nope", "ec\\u0068o", "e\\\"q", ""]
 		} else {
 			&["echo", "aecho", "becho", "add"]
 		};
@@ -122,7 +123,13 @@ pub fn gen_message(pool: &mut Vec<String>, ctr: &mut u64, nonce: u64, for_batch:
 	let mut body: Vec<u8> = match rt::draw("msg_kind", if for_batch { 17 } else { 20 }) {
 		0..=8 => {
 			let m = method(true);
-			let params = if m == "add" { add_params(nonce) } else { gen_params(nonce) };
+			let params = if m == "add" {
+				add_params(nonce)
+			} else if m == "seqadd" {
+				Some(rt::pick("seq_params", &["[1,2]", "[1 ,2]", "[ 1, 2 ]", "[1\t,\n2]", "[1,2,3]", "[7 , 8 , 9]", "[1]", "[\"a\",2]", "{\"a\":1}", "[4294967295,4294967295]", "[1,  2]"]).to_string())
+			} else {
+				gen_params(nonce)
+			};
 			let extra = if rt::chance("extra_member", 1, 8) { Some("\"extra\":{\"x\":[1]}") } else { None };
 			obj(Some(gen_id(pool, ctr)), Some("\"2.0\""), Some(format!("\"{m}\"")), params, extra, None).into_bytes()
 		}
@@ -189,7 +196,7 @@ struct ConnResult {
 
 pub async fn scenario() {
 	rt::expect_panic_marker(world::PANIC_MARKER);
-	let entry = *rt::pick("entry", &[Entry::Tower, Entry::Tower, Entry::LowLevel]);
+	let entry = *rt::pick("entry", &[Entry::Tower, Entry::Default, Entry::LowLevel, Entry::Default]);
 	let buf_cap = *rt::pick("buf_cap", &[1024u32, 1, 2, 4]);
 	let frag = match rt::draw("frag", 4) {
 		0 | 1 => Frag::default(),
@@ -199,6 +206,7 @@ pub async fn scenario() {
 	let n_conns = rt::draw_range("n_conns", 1, 2);
 	let http_over_stream = rt::chance("http_over_stream", 1, 4);
 	let mut world = World::new(SrvCfg { entry, buf_cap, frag, ..Default::default() });
+	world.start().await;
 	let mut all: Vec<Vec<Sent>> = Vec::new();
 	let mut nonce = 100u64;
 	for _ in 0..n_conns {
@@ -214,7 +222,11 @@ pub async fn scenario() {
 			}
 			let mut cls = classify(&bytes);
 			let mut quirk_expect = None;
-			if cls.quirk.is_some() {
+			if cls.quirk == Some("formfeed-in-leading-whitespace") {
+				quirk_expect = Some(cls.expect.clone());
+				cls.expect = Expect::Unclassified;
+				cls.invokes = None;
+			} else if cls.quirk.is_some() {
 				// bytes that are not UTF-8 but JSON-shaped once decoded lossily: checked on their own (HTTP side),
 				// kept out of the WebSocket matching
 				quirk_expect = Some(cls.expect.clone());
@@ -408,7 +420,17 @@ pub async fn scenario() {
 			};
 			match &m.cls.expect {
 				Expect::Unclassified => {
-					if let (Some(e), Some(q)) = (&m.quirk_expect, m.cls.quirk) {
+					if let (Some(e), Some("formfeed-in-leading-whitespace")) = (&m.quirk_expect, m.cls.quirk) {
+						// either both transports treat the form feed as whitespace (and answer as for the rest of
+						// the message) or both reject the message as not JSON
+						if let Expect::Reply { ids, .. } = e {
+							let http_processed = parse_response(&rep.body).is_ok_and(|(id, out)| satisfies(e, &id, &out));
+							let ws_processed = r.frames.iter().filter_map(|(_, f)| parse_response(f).ok()).any(|(id, out)| ids.contains(&id) && id != Value::Null && satisfies(e, &id, &out));
+							if ids.iter().any(|i| *i != Value::Null) && m.cls.is_call && http_processed != ws_processed {
+								rt::violate(P, "transports-differ", "formfeed-in-leading-whitespace", format!("{:?}: processed over HTTP: {http_processed}, over WebSocket: {ws_processed}", String::from_utf8_lossy(&m.bytes)));
+							}
+						}
+					} else if let (Some(e), Some(q)) = (&m.quirk_expect, m.cls.quirk) {
 						let ok = parse_response(&rep.body).is_ok_and(|(id, out)| satisfies(e, &id, &out));
 						if !ok {
 							rt::violate(P, "non-json-not-rejected", q, format!("{:?} is not valid UTF-8, hence not JSON, but was answered {:?} instead of -32700 with id null", String::from_utf8_lossy(&m.bytes), String::from_utf8_lossy(&rep.body)));
